@@ -167,10 +167,16 @@ def diagKey : Config.Diag → String
   | .cacheSize => "network.cache_size"
 
 def configOp (j : Json) : Except String Res := do
-  let raw ← j.getObjVal? "raw"
+  let raw0 ← j.getObjVal? "raw"
   let expect ← (← j.getObjVal? "expect").getStr?
   if expect == "toml" then
     return { model := Json.mkObj [("reject", "toml")], nontrivial := true }
+  -- a value of another TOML type: decoding is the decoder's (trusted); the model starts from what
+  -- it decoded, or from its refusal
+  let typed := (j.getObjVal? "typed").toOption == some (Json.bool true)
+  if typed && (j.getObjVal? "decoded").toOption.isNone then
+    return { model := Json.mkObj [("reject", "toml")], nontrivial := false }
+  let raw := if typed then (j.getObjVal? "decoded").toOption.getD raw0 else raw0
   let d := Config.defaults
   let hook : List Str := match raw.getObjVal? "hook" with
     | .ok (Json.arr a) => a.toList.filterMap fun v => match v with | Json.str s => some s.toList | _ => none
@@ -206,13 +212,20 @@ def configOp (j : Json) : Except String Res := do
         (c.getObjVal? "hook").toOption == some (Json.arr a)
       else true
     | _, _ => true
+  -- the sizes of an accepted configuration are the configured ones (no wrap-around on the way)
+  let sizesOk : Bool := match impl.getObjVal? "ok" with
+    | .ok c =>
+      let n (k : String) : Option Int := (c.getObjVal? k).toOption.bind (·.getInt?.toOption)
+      n "timeout" == some r.timeout && n "context" == some r.context && n "cache" == some r.cacheSize
+    | _ => true
+  let preds := [("accepted_config_is_safe", safeOk), ("hook_as_configured", hookOk), ("sizes_as_configured", sizesOk)]
   match Config.postprocess r with
-  | .error dg => pure { model := Json.mkObj [("reject", Json.str (diagKey dg))], preds := [("accepted_config_is_safe", safeOk), ("hook_as_configured", hookOk)] }
+  | .error dg => pure { model := Json.mkObj [("reject", Json.str (diagKey dg))], preds := preds }
   | .ok p =>
-    pure { preds := [("accepted_config_is_safe", safeOk), ("hook_as_configured", hookOk)], model := Json.mkObj [("ok", Json.mkObj [
+    pure { preds := preds, model := Json.mkObj [("ok", Json.mkObj [
       ("hook", jsl p.hook), ("primary", js p.colors.primary), ("error", js p.colors.error),
       ("highlight", js p.colors.highlight), ("code", js p.colors.code),
-      ("context", Json.num p.context), ("timeout", Json.num p.timeoutSeconds), ("cache", Json.num p.cacheSize)])] }
+      ("context", Json.num p.context), ("timeout", Json.num (Int.tdiv p.timeoutNanos 1000000000)), ("cache", Json.num p.cacheSize)])] }
 
 def hookOp (j : Json) : Except String Res := do
   let hook ← strList j "hook"
